@@ -21,12 +21,32 @@ TOP = ("?",)
 LEN_MAX = (1 << 63) - 1      # slice / Vec / Bytes lengths never exceed isize::MAX
 
 
-def iv(lo, hi=None):
-    return ("iv", lo, lo if hi is None else hi)
+BIG = 1 << 70       # stride of the constant 0 (a multiple of every power of two)
+
+
+def _stride_of(v):
+    """largest power of two dividing the constant v"""
+    if v == 0:
+        return BIG
+    return v & -v
+
+
+def iv(lo, hi=None, m=None):
+    """interval [lo, hi] of values that are all multiples of the power of two m (congruence component; 1 = no information)"""
+    hi = lo if hi is None else hi
+    if m is None:
+        m = _stride_of(lo) if lo == hi else 1
+    elif lo == hi:
+        m = max(m, _stride_of(lo)) if lo % min(m, BIG) == 0 else _stride_of(lo)
+    return ("iv", lo, hi, m)
 
 
 def is_iv(v):
-    return isinstance(v, tuple) and len(v) == 3 and v[0] == "iv"
+    return isinstance(v, tuple) and len(v) == 4 and v[0] == "iv"
+
+
+def stride(v):
+    return v[3] if is_iv(v) else 1
 
 
 def tymax(ty):
@@ -46,7 +66,7 @@ def join(a, b):
     if b is None:
         return a
     if is_iv(a) and is_iv(b):
-        return iv(min(a[1], b[1]), max(a[2], b[2]))
+        return iv(min(a[1], b[1]), max(a[2], b[2]), min(a[3], b[3]))
     if isinstance(a, Agg) and isinstance(b, Agg) and a.adt == b.adt and a.variant == b.variant and len(a.fields) == len(b.fields):
         return Agg(a.adt, a.variant, a.idx, [join(x, y) for x, y in zip(a.fields, b.fields)], a.names)
     if isinstance(a, tuple) and isinstance(b, tuple) and a and b and a[0] == "tuple" and b[0] == "tuple" and len(a[1]) == len(b[1]):
@@ -54,33 +74,43 @@ def join(a, b):
     return TOP
 
 
-def _fit(lo, hi, ty):
-    m = tymax(ty)
-    if m is None:
-        return iv(lo, hi) if lo >= 0 else TOP
-    if lo < 0 or hi > m:
-        return iv(0, m)
-    return iv(lo, hi)
+def _fit(lo, hi, ty, m=1):
+    mx = tymax(ty)
+    if mx is None:
+        return iv(lo, hi, m) if lo >= 0 else TOP
+    if lo < 0 or hi > mx:
+        # wrapped modulo 2^w: a power-of-two stride below 2^w survives the wrap
+        return iv(0, mx, m if m <= mx else 1)
+    return iv(lo, hi, m)
 
 
 def _bin(op, a, c, ty):
     """a, c intervals; returns (value, may_overflow)"""
     al, ah, cl, ch = a[1], a[2], c[1], c[2]
+    ma, mc = a[3], c[3]
     m = tymax(ty)
+    st = 1
     if op == "Add":
-        lo, hi = al + cl, ah + ch
+        lo, hi, st = al + cl, ah + ch, min(ma, mc)
     elif op == "Sub":
-        lo, hi = al - ch, ah - cl
+        lo, hi, st = al - ch, ah - cl, min(ma, mc)
     elif op == "Mul":
-        lo, hi = al * cl, ah * ch
+        lo, hi, st = al * cl, ah * ch, min(BIG, ma * mc)
     elif op == "Div":
         if cl <= 0:
             return top_of(ty), True
         lo, hi = al // ch, ah // cl
+        if cl == ch and (cl & (cl - 1)) == 0 and ma % cl == 0:
+            st = ma // cl
     elif op == "Rem":
         if cl <= 0:
             return top_of(ty), True
-        lo, hi = (al % cl, al % cl) if (al == ah and cl == ch) else (0, min(ah, ch - 1))
+        if al == ah and cl == ch:
+            lo, hi = al % cl, al % cl
+        elif cl == ch and (cl & (cl - 1)) == 0 and ma % cl == 0:
+            lo, hi = 0, 0
+        else:
+            lo, hi = 0, min(ah, ch - 1)
     elif op == "BitAnd":
         if al == ah and cl == ch:
             lo, hi = al & cl, al & cl
@@ -88,20 +118,23 @@ def _bin(op, a, c, ty):
             lo, hi = al & cl, ah & cl          # low-bit mask of an interval inside one 2^k block: monotone
         else:
             lo, hi = 0, min(ah, ch)
+        st = max(min(ma, BIG), min(mc, BIG)) if (ma < BIG or mc < BIG) else BIG     # x & y is a multiple of both strides' max
     elif op in ("BitOr", "BitXor"):
         if al == ah and cl == ch:
             v = (al | cl) if op == "BitOr" else (al ^ cl)
             lo, hi = v, v
         else:
             lo, hi = (max(al, cl) if op == "BitOr" else 0), (1 << max(ah.bit_length(), ch.bit_length())) - 1
+        st = min(ma, mc)
     elif op == "Shl":
         if cl != ch or not 0 <= cl < 128:
             return top_of(ty), True
-        lo, hi = al << cl, ah << cl
+        lo, hi, st = al << cl, ah << cl, min(BIG, ma << cl)
     elif op == "Shr":
         if cl != ch or not 0 <= cl < 128:
             return top_of(ty), True
         lo, hi = al >> cl, ah >> cl
+        st = max(1, ma >> cl)
     elif op in ("Eq", "Ne", "Lt", "Le", "Gt", "Ge"):
         def dec(t, f):
             return iv(1) if t else (iv(0) if f else iv(0, 1))
@@ -122,8 +155,130 @@ def _bin(op, a, c, ty):
     if op == "Add" and ty == "usize" and lo <= m < hi:
         # ASSUMPTION (no usize wrap on additions of sizes): a wrap needs operands summing to > 2^64, i.e. more live
         # bytes than the address space holds; dev builds panic instead.  Keeps the lower bound, saturates the upper.
-        return iv(lo, m), True
-    return _fit(lo, hi, ty), ovf
+        return iv(lo, m, st), True
+    if op == "Sub" and lo < 0:
+        st = st if (m is not None and st <= m) else 1
+    return _fit(lo, hi, ty, st), ovf
+
+
+def intrinsic2(callee, vals, rty):
+    """integer intrinsics of two interval arguments (None when not modelled)"""
+    if not (len(vals) == 2 and all(is_iv(x) for x in vals)):
+        return None
+    a, c = vals
+    stm = min(a[3], c[3])
+    if callee.endswith("::saturating_sub"):
+        return iv(max(0, a[1] - c[2]), max(0, a[2] - c[1]), stm)        # 0 is a multiple of everything
+    if callee.endswith("::saturating_add"):
+        m = tymax(rty) or (1 << 64) - 1
+        return iv(min(m, a[1] + c[1]), min(m, a[2] + c[2]), stm if a[2] + c[2] <= m else 1)
+    if callee.endswith(("::Ord::min", "core::cmp::min")):
+        return iv(min(a[1], c[1]), min(a[2], c[2]), stm)
+    if callee.endswith(("::Ord::max", "core::cmp::max")):
+        return iv(max(a[1], c[1]), max(a[2], c[2]), stm)
+    if callee.endswith("::is_multiple_of") and c[1] == c[2] and c[1] > 0:
+        k0 = c[1]
+        if (k0 & (k0 - 1)) == 0 and a[3] % k0 == 0:
+            return iv(1)
+        if a[1] == a[2]:
+            return iv(int(a[1] % k0 == 0))
+        return iv(0, 1)
+    if callee.endswith("::div_ceil") and c[1] == c[2] and c[1] > 0:
+        k0 = c[1]
+        if (k0 & (k0 - 1)) == 0 and a[3] % k0 == 0:
+            return iv(a[1] // k0, a[2] // k0, a[3] // k0)
+        return iv(-(-a[1] // k0), -(-a[2] // k0))
+    return None
+
+
+def eval_tree(F, t, params=None, depth=6):
+    """abstract value of an origin tree: constants, arithmetic, aggregates, and calls of functions with bodies evaluated by
+    eval_iv over the abstract arguments; parameters are TOP unless given in `params` (dict index -> value)"""
+    import panic as PN
+    if not isinstance(t, tuple) or not t or depth < 0:
+        return TOP
+    k = t[0]
+    if k in ("lit", "const"):
+        br = PN._const_bitrange(F, t)
+        if br is not None:
+            return Agg("sciparse::core::layout::BitRange", "BitRange", 0, [iv(br[0]), iv(br[1])], ["start", "end"])
+        c = PN.const_eval(t)
+        return iv(c) if c is not None and c >= 0 else TOP
+    if k == "param":
+        return (params or {}).get(t[1], TOP)
+    if k == "ref" and len(t) == 3:
+        return eval_tree(F, t[2], params, depth)
+    if k == "deref" and len(t) == 2:
+        return eval_tree(F, t[1], params, depth)
+    if k == "cast" and len(t) >= 5:
+        v = eval_tree(F, t[2], params, depth)
+        if is_iv(v):
+            m = tymax(t[4])
+            return v if (m is not None and v[2] <= m) else top_of(t[4])
+        return top_of(t[4]) if str(t[1]).startswith("IntToInt") else v
+    if k == "bin" and len(t) == 4:
+        a, c = eval_tree(F, t[2], params, depth), eval_tree(F, t[3], params, depth)
+        op = t[1].replace("Unchecked", "")
+        wo = op.endswith("WithOverflow")
+        op = op.replace("WithOverflow", "")
+        if is_iv(a) and is_iv(c):
+            r, o = _bin(op, a, c, "usize")
+        else:
+            r, o = (iv(0, 1), False) if op in ("Eq", "Ne", "Lt", "Le", "Gt", "Ge") else (top_of("usize"), True)
+        return ("tuple", [r, iv(0, 1) if o else iv(0)]) if wo else r
+    if k == "field" and len(t) == 3:
+        v = eval_tree(F, t[1], params, depth)
+        if isinstance(v, Agg):
+            if v.names and t[2] in v.names:
+                return v.fields[v.names.index(t[2])]
+            adt = F.adts.get(v.adt)
+            if adt:
+                try:
+                    names = [f[0] for f in adt["variants"][v.idx][2]]
+                    if t[2] in names and names.index(t[2]) < len(v.fields):
+                        return v.fields[names.index(t[2])]
+                except Exception:
+                    pass
+            return TOP
+        if isinstance(v, tuple) and v and v[0] == "tuple" and str(t[2]).isdigit() and int(t[2]) < len(v[1]):
+            return v[1][int(t[2])]
+        return TOP
+    if k == "downcast":
+        v = eval_tree(F, t[1], params, depth)
+        return v if isinstance(v, Agg) and v.variant == t[2] else TOP
+    if k == "agg":
+        vals = [eval_tree(F, x, params, depth) for x in t[2]]
+        kind = t[1]
+        if kind[0] == "adt":
+            names = None
+            adt = F.adts.get(kind[1])
+            if adt:
+                try:
+                    names = [f[0] for f in adt["variants"][kind[3]][2]]
+                except Exception:
+                    names = None
+            return Agg(kind[1], kind[2], kind[3], vals, names)
+        if kind[0] == "tuple":
+            return ("tuple", vals)
+        return TOP
+    if k == "phi":
+        r = None
+        for a in t[1]:
+            if isinstance(a, tuple):
+                r = join(r, eval_tree(F, a, params, depth))
+        return r if r is not None else TOP
+    if k == "call":
+        vals = [eval_tree(F, a, params, depth - 1) for a in t[2]]
+        r = intrinsic2(t[1], vals, "usize")
+        if r is not None:
+            return r
+        if F.has_body(t[1]):
+            r = eval_iv(F, t[1], vals)
+            return TOP if r is None else r
+        if re.search(r"::(len|required_size|size_bytes)$", t[1]):
+            return iv(0, LEN_MAX)
+        return TOP
+    return TOP
 
 
 LOOP_VISITS = 4      # a block may be entered this often on one path (concrete `for _ in 0..k` loops with k <= 3 are unrolled)
@@ -156,7 +311,8 @@ def eval_iv(F, fn, args, depth=6, fuel=None, probes=None, state=None):
     b = F.body(fn)
     if b is None or depth < 0:
         return TOP
-    fuel = fuel or _Fuel(4000)
+    fuel = fuel or _Fuel(150000)      # global budget of one top-level evaluation, shared with nested calls
+    local = _Fuel(4000)               # budget of this invocation's own blocks
 
     def run(cur, env, refs, seen, si0=0):
         """evaluate from block `cur` (statement si0); returns joined return value"""
@@ -165,7 +321,8 @@ def eval_iv(F, fn, args, depth=6, fuel=None, probes=None, state=None):
             start = si0 if first else 0
             first = False
             fuel.n -= 1
-            if fuel.n < 0:
+            local.n -= 1
+            if fuel.n < 0 or local.n < 0:
                 if state is not None:
                     state["incomplete"] = True
                 return TOP
@@ -368,17 +525,7 @@ def eval_iv(F, fn, args, depth=6, fuel=None, probes=None, state=None):
                 vals = [op_val(a) for a in t[2]]
                 rty = b.local_ty(dest[0]) if not dest[1] else None
                 r = None
-                if len(vals) == 2 and all(is_iv(x) for x in vals):
-                    a, c = vals
-                    if callee.endswith("::saturating_sub"):
-                        r = iv(max(0, a[1] - c[2]), max(0, a[2] - c[1]))
-                    elif callee.endswith("::saturating_add"):
-                        m = tymax(rty) or (1 << 64) - 1
-                        r = iv(min(m, a[1] + c[1]), min(m, a[2] + c[2]))
-                    elif callee.endswith(("::Ord::min", "core::cmp::min")):
-                        r = iv(min(a[1], c[1]), min(a[2], c[2]))
-                    elif callee.endswith(("::Ord::max", "core::cmp::max")):
-                        r = iv(max(a[1], c[1]), max(a[2], c[2]))
+                r = intrinsic2(callee, vals, rty)
                 if r is None and callee.endswith("IntoIterator>::into_iter") and vals and isinstance(vals[0], Agg) and vals[0].adt == "core::ops::range::Range":
                     r = vals[0]
                 if r is None and callee.endswith("core::ops::range::Range<A>>::next") and len(t[2]) == 1 and FX.op_place(t[2][0]) is not None:
